@@ -103,8 +103,8 @@ class SessionPlan(Plan):
     """Seeded random walks (all flavours/profiles/transports) + plan-specific families."""
     flavours = ("mixed", "pubflow", "subflow", "lossy", "timers")
     profiles = (None,)
-    n_quick = 6000
-    n_thorough = 150000
+    n_quick = 16000
+    n_thorough = 800000
     lens = (10, 25, 60)
     assumptions = SESSION_ASSUMPTIONS
 
